@@ -6,7 +6,7 @@ Contract on the REAL `data_algebra.polars_model.PolarsModel.eval` (the live mode
     post(eval(op, data_map)) :=  raises  OR  frames_equiv(result, pandas result of the same pipeline)
 
 checked for eager `pl.DataFrame` inputs and `pl.LazyFrame` inputs, each with `use_lazy_eval` True and
-False (4 modes).  Raising satisfies the property; returned-vs-raised is counted, and only
+False (4 modes), plus two modes whose input frames carry an undeclared extra column and permuted columns.  Raising satisfies the property; returned-vs-raised is counted, and only
 returned-and-compared evaluations are nontrivial.
 """
 from __future__ import annotations
@@ -24,7 +24,8 @@ PID = "C03"
 BACKENDS = ("Pandas",)  # the catalog has no Polars column: only Pandas support is required
 CONTRACT_NAME = "PolarsModel.eval"
 PAIR = ("pandas", "polars")
-MODES = [("eager", True), ("eager", False), ("lazy", True), ("lazy", False)]
+MODES = [("eager", True), ("eager", False), ("lazy", True), ("lazy", False), ("eager-wide", False), ("lazy-wide", True)]
+# "-wide": the Polars input frames carry an undeclared extra column and the declared columns in another order
 
 FUNCTIONS_UNDER_CONTRACT = [
     {"file": "data_algebra/polars_model.py", "function": "PolarsModel.eval"},
@@ -125,7 +126,7 @@ def eval_case(spec: Dict[str, Any], data: Dict[str, Any]) -> Dict[str, Any]:
         _STATE.clear()
         _STATE.update({"active": True, "spec": spec, "p_out": p_out, "pc": pc})
         try:
-            l_out = C.run_polars(ops, C.polars_frames(spec, data), lazy=(kind == "lazy"), use_lazy_eval=ule)
+            l_out = C.run_polars(ops, C.polars_frames(spec, data, wide=kind.endswith("-wide")), lazy=kind.startswith("lazy"), use_lazy_eval=ule)
         finally:
             _STATE["active"] = False
         wrap.take_failures()
@@ -300,7 +301,7 @@ def replay_case(case: Dict[str, Any]) -> bool:
     p = C.run_pandas(ops, C.pandas_frames(spec, data))
     print("pandas:", ("columns %r rows %r" % C.canon_rows(p[1])) if p[0] == "ok" else "raised %s: %s" % (p[1], p[2]))
     for kind, ule in MODES:
-        l = C.run_polars(ops, C.polars_frames(spec, data), lazy=(kind == "lazy"), use_lazy_eval=ule)
+        l = C.run_polars(ops, C.polars_frames(spec, data, wide=kind.endswith("-wide")), lazy=kind.startswith("lazy"), use_lazy_eval=ule)
         print("polars %s use_lazy_eval=%s:" % (kind, ule), ("columns %r rows %r" % C.canon_rows(l[1])) if l[0] == "ok" else "raised %s: %s" % (l[1], l[2][:200]))
     r = eval_case(spec, data)
     print("verdict:", r["status"], r.get("keys", ""), r["detail"][:600])
